@@ -15,6 +15,7 @@
 #if defined(__linux__)
 #include <sys/epoll.h>
 #include <sys/timerfd.h>
+#include <time.h>
 #elif defined(SOLARIS)
 #include <port.h>
 #include <signal.h>
@@ -38,6 +39,8 @@ static uint64_t timer_trigger_count = 0;
 
 #if defined(__linux__)
 static int timer_fd = -1;
+// CLOCK_MONOTONIC, taken just before the timer is armed
+static uint64_t timer_armed_ns = 0;
 typedef ssize_t (*readFnType)(int, void*, size_t);
 static readFnType fibershim_read = NULL;
 #elif defined(SOLARIS)
@@ -119,6 +122,9 @@ int fiber_event_init() {
   in.it_interval.tv_nsec = FIBER_TIME_RESOLUTION_MS * 1000000;  // ms
   in.it_value.tv_nsec = FIBER_TIME_RESOLUTION_MS * 1000000;     // ms
   struct itimerspec out;
+  struct timespec armed;
+  clock_gettime(CLOCK_MONOTONIC, &armed);
+  timer_armed_ns = (uint64_t)armed.tv_sec * 1000000000ULL + armed.tv_nsec;
   int ret = timerfd_settime(timer_fd, 0, &in, &out);
   assert(!ret);
 
@@ -414,7 +420,23 @@ int fiber_sleep(uint32_t seconds, uint32_t useconds) {
   }
 #endif
 
-  const uint64_t wake_time = timer_trigger_count + sleep_ms;
+  uint64_t now_ticks = timer_trigger_count;
+#if defined(__linux__)
+  // timer_trigger_count only knows the expirations the timer has reported so
+  // far; they can be reported late (timer interrupt delayed, machine stalled)
+  // and then arrive all at once. never start from a tick base that is behind
+  // the clock, otherwise this sleep ends that many ticks early. the timer
+  // cannot have expired more often than this:
+  struct timespec now;
+  clock_gettime(CLOCK_MONOTONIC, &now);
+  const uint64_t clock_ticks =
+      ((uint64_t)now.tv_sec * 1000000000ULL + now.tv_nsec - timer_armed_ns) /
+      (FIBER_TIME_RESOLUTION_MS * 1000000ULL);
+  if (clock_ticks > now_ticks) {
+    now_ticks = clock_ticks;
+  }
+#endif
+  const uint64_t wake_time = now_ticks + sleep_ms;
   wake_info.wake_time = wake_time;
   waiter_insert(&sleepers, &wake_info);
 
